@@ -117,6 +117,8 @@ def check():
     res = vh_cases(vcases, wd, "c11", templates={})
     classes = set()
     for (c, via_cli), r in zip(meta, res):
+        if r.get("skipped"):
+            continue   # the runner stopped after too many hung / panicked runs (each one already reported)
         st = r["steps"][0]
         tree = st["tree"]
         ctx = f"[inputs {c['inputs']} recursive={c['rec']} mode={c['mode']}{' via CLI' if via_cli else ''}]"
